@@ -514,6 +514,17 @@ def ptr_scenarios(shapes, L):
                     out.append(Scenario(sh, [setup(n), f"ptrw r0 {src} mut add:{d} {wr}:{20 + k}", f"ptrw r0 vec mut add:{target} as_mut:{target % NLEAVES[sh]}:{25}", "len r0"], "ptr-write"))
             for kind in ("vec", "slice", "slicemut"):
                 out.append(Scenario(sh, [setup(n), "push r0 30", "pop r0", f"roundtrip r0 {kind}", "push r0 31", "len r0"], "roundtrip"))
+            # a vector round trip that keeps its spare capacity (all field arrays allocated with one exact capacity)
+            out.append(Scenario(sh, [f"with_capacity r0 {n + 5}"] + [f"push r0 {i}" for i in range(n)] + ["caps r0", "roundtrip r0 vec_cap", "caps r0", "capacity r0", f"promise r0 5", "len r0"], "roundtrip-cap"))
+            # windows of the views and their from_raw_parts(_mut) round trips designate the window's first position in every field, empty windows included
+            wl = [setup(n)]
+            for a in range(n + 1):
+                for b in sorted({a, min(a + 1, n), n}):
+                    for src, cm in (("wins", "const"), ("winsm", "const"), ("winsm", "mut"), ("rts", "const"), ("rtsm", "const"), ("rtsm", "mut")):
+                        wl.append(f"ptr r0 {src}:{a}:{b} {cm}")
+                        if a < b: wl.append(f"ptr r0 {src}:{a}:{b} {cm} read")
+                        if b - a > 1: wl.append(f"ptr r0 {src}:{a}:{b} {cm} add:{b - a - 1} as_ref")
+            out.append(Scenario(sh, wl, "ptr-window"))
     return out
 
 
